@@ -137,8 +137,9 @@ type c20tree struct {
 	files   map[string]string // relative slash path -> content
 	expects []string          // reports the entry program must make
 	ka, kb  int
-	big     int    // > 0: tree "big-<size>-<kind>": entry file, one module and one data file of exactly this size
-	bigFill string // text the big entry file is padded with
+	big     int               // > 0: tree "big-<size>-<kind>": entry file, one module and one data file of exactly this size
+	bigFill string            // text the big entry file is padded with
+	links   map[string]string // relative slash path -> symlink target (the file is a symbolic link to a regular file)
 }
 
 // c20filler: n bytes of text that can stand inside an ECAL raw string; "rep" compresses to
@@ -216,14 +217,36 @@ func c20mktree(root, name string, marker string) (*c20tree, error) {
 		t.files["big/small.ecal"] = "k := 2\n"
 		t.bigFill = c20filler(size, kind, int64(size)+2)
 	}
+	// files of the project that are symbolic links to regular files: a module shared with
+	// another project (target outside the project directory, relative link) and an alias inside
+	// the project; a packed file is whatever the path holds when read (every project directory)
+	shared := filepath.Join(root, "shared-"+name, "common")
+	linkContent := "k := 11\nv := \"linked module\"\n"
+	if err := os.MkdirAll(shared, 0o755); err == nil && os.WriteFile(filepath.Join(shared, "real.ecal"), []byte(linkContent), 0o644) == nil {
+		t.links = map[string]string{
+			"lib/link.ecal":   filepath.Join("..", "..", "shared-"+name, "common", "real.ecal"),
+			"data/alias.ecal": filepath.Join("..", "lib", "a.ecal"),
+		}
+		t.files["lib/link.ecal"] = linkContent
+		t.files["data/alias.ecal"] = t.files["lib/a.ecal"]
+	}
 	for rel, content := range t.files {
 		p := filepath.Join(t.dir, filepath.FromSlash(rel))
 		if err := os.MkdirAll(filepath.Dir(p), 0o755); err != nil {
 			return nil, err
 		}
+		if target, ok := t.links[rel]; ok {
+			if err := os.Symlink(target, p); err == nil {
+				continue
+			}
+			// no symbolic links on this file system: a regular file with the same content
+		}
 		if err := os.WriteFile(p, []byte(content), 0o644); err != nil {
 			return nil, err
 		}
+	}
+	if t.links != nil {
+		t.expects = append(t.expects[:3:3], append([]string{"lk.k=11", "al.k=7"}, t.expects[3:]...)...)
 	}
 	if err := os.MkdirAll(filepath.Join(t.dir, "emptydir"), 0o755); err != nil {
 		return nil, err
@@ -234,6 +257,9 @@ func c20mktree(root, name string, marker string) (*c20tree, error) {
 func c20entry(t *c20tree, rc int) string {
 	head := "import \"lib/a.ecal\" as a\nimport \"lib/deep/er/b.ecal\" as b\n" +
 		"verifc20.report(\"a.v\", a.v)\nverifc20.report(\"b.v\", b.v)\nverifc20.report(\"b.f\", b.f(3))\n"
+	if t.links != nil {
+		head += "import \"lib/link.ecal\" as lk\nverifc20.report(\"lk.k\", lk.k)\nimport \"data/alias.ecal\" as al\nverifc20.report(\"al.k\", al.k)\n"
+	}
 	try := func(path, tag string) string {
 		return "try {\n    import \"" + path + "\" as x" + tag + "\n    verifc20.report(\"" + tag + "\", \"imported\")\n} except e {\n    verifc20.report(\"" + tag + "\", e.error)\n}\n"
 	}
